@@ -82,6 +82,8 @@ type FuncUnit struct {
 	Loops    map[int]*LoopUnit // by ordinal
 	AstLoops []ast.Stmt
 	Asserts  []*AssertUnit
+	Steps    []*ssa.Function
+	Dropped  []string
 	id       string
 	IfaceT   *types.Named // for iface contracts
 	IfaceM   string
@@ -341,6 +343,9 @@ func LE64(b []byte, i int) uint64 {
 	return uint64(b[i]) | uint64(b[i+1])<<8 | uint64(b[i+2])<<16 | uint64(b[i+3])<<24 |
 		uint64(b[i+4])<<32 | uint64(b[i+5])<<40 | uint64(b[i+6])<<48 | uint64(b[i+7])<<56
 }
+// atomicDrop: total decrease (old-new) of the shared location over the atomic read-modify-write
+// steps executed so far in the function under contract.
+func atomicDrop() uint64 { panic("spec") }
 // arrID: identity of the backing array of s (0 for nil).
 func arrID(s []byte) int { panic("spec") }
 // sameArr: the two slices share their backing array.
@@ -738,7 +743,10 @@ func (ld *Loaded) genStubOnce(lp *LPkg, skip map[string]string, cur *string) (st
 		// loops
 		for _, lc := range fc.Loops {
 			if lc.Ordinal < 0 || lc.Ordinal >= len(u.AstLoops) {
-				return "", fmt.Errorf("%s:%d: contract drift: %s has no loop %d", cf.Path, lc.Line, fc.Key, lc.Ordinal)
+				// the loop is gone: its annotations have nothing to attach to; the rest of the
+				// contract still applies (and must now hold without them)
+				u.Dropped = append(u.Dropped, fmt.Sprintf("annotations of loop %d (loop no longer exists)", lc.Ordinal))
+				continue
 			}
 			stmt := u.AstLoops[lc.Ordinal]
 			if lc.CondText != "" {
@@ -840,6 +848,18 @@ func (ld *Loaded) genStubOnce(lp *LPkg, skip map[string]string, cur *string) (st
 				fmt.Fprintf(&body, "\td = M(%s)\n", lc.Decreases)
 			}
 			body.WriteString("\treturn\n}\n")
+		}
+		// atomic-step predicates
+		for k, sc := range fc.Steps {
+			_, ds := u.sigParams(qual, false)
+			for i := range ds {
+				ds[i] = strings.Replace(ds[i], " ...", " []", 1)
+			}
+			for _, o := range fc.Olds {
+				ds = append(ds, o.Name+" "+o.Type)
+			}
+			ds = append(ds, "old64 uint64", "new64 uint64")
+			fmt.Fprintf(&body, "func _vcstep_%s_%d(%s) bool {\n\treturn %s // line %d\n}\n", u.id, k, strings.Join(ds, ", "), sc.Expr, sc.Line)
 		}
 		// point assertions
 		for k, ac := range fc.Asserts {
@@ -1069,6 +1089,10 @@ func (ld *Loaded) bind(lp *LPkg) error {
 		}
 		for _, au := range u.Asserts {
 			au.Fn = lp.SPkg.Func(fmt.Sprintf("_vcassert_%s_%d", u.id, au.Index))
+		}
+		u.Steps = nil
+		for k := range u.C.Steps {
+			u.Steps = append(u.Steps, lp.SPkg.Func(fmt.Sprintf("_vcstep_%s_%d", u.id, k)))
 		}
 	}
 	for i, l := range lp.CF.Lemmas {
